@@ -31,6 +31,7 @@
 
 From mathcomp Require Import all_ssreflect all_algebra.
 From PV Require Import Spectrum.CharPoly Spectrum.CharPolyEx.
+From PV Require Import Spectrum.CharPolyExec Spectrum.CharPolyExecCorrect.
 Import GRing.Theory.
 Local Open Scope ring_scope.
 
@@ -169,3 +170,36 @@ Example C04_rs_diag_block_ex :
   /\ (forall i j, eqN 1 ((swUi *m swH *m swU) i j)
         ((block_mx (diag_mx (0 : 'rV_1)) 0 0 ((1 : {poly int})%:M : 'M_1)) i j)).
 Proof. by split; [exact: sw_unitary | rewrite -swHt_block; exact: sw_similar]. Qed.
+
+(* Tie lemmas (not clauses of the property): the list-based executable definitions of
+   Spectrum/CharPolyExec.v, which tools/harness/k_charpoly.py evaluates on the
+   implementation's output, are correct with respect to MathComp when run with the
+   operations [ROps F] of any comRingType F: [charpoly] computes [char_poly], and the
+   premise checks imply the premises of [C04_charpoly_trunc] for the matrices [MX n _] of
+   polynomials denoted by the lists.  The tie runs the same Gallina terms with the
+   operations [Qops] of stdlib Q; that Q with Qred/Qeq_bool is such a ring is not proved. *)
+Theorem C04_tie_charpoly_correct (F : comRingType) (n : nat) (M : list (list (list F))) :
+  wf n M ->
+  Poly (map (fun l => Poly l) (charpoly (poly_ops (ROps F)) n M)) = char_poly (MX n M).
+Proof. exact: charpoly_exec_correct. Qed.
+Print Assumptions C04_tie_charpoly_correct.
+
+Theorem C04_tie_premises_sound (F : comRingType) (N n : nat)
+    (U Ui H Ht : list (list (list F))) :
+  wf n U -> wf n Ui -> wf n H ->
+  g_prem_unitary (ROps F) N n U Ui = true ->
+  g_prem_similar (ROps F) N U Ui H Ht = true ->
+  (forall i j, eqN N ((MX n Ui *m MX n U) i j) ((1%:M : 'M_n) i j))
+  /\ (forall i j, eqN N ((MX n Ui *m MX n H *m MX n U) i j) (MX n Ht i j)).
+Proof. exact: exec_premises_sound. Qed.
+Print Assumptions C04_tie_premises_sound.
+
+Example C04_tie_ex :
+  let U  : list (list (list int)) := [:: [:: [:: 1]; [:: 0; 1]]; [:: [:: 0; -1]; [:: 1]]] in
+  let Ui : list (list (list int)) := [:: [:: [:: 1]; [:: 0; -1]]; [:: [:: 0; 1]; [:: 1]]] in
+  let H  : list (list (list int)) := [:: [:: [::]; [:: 0; 1]]; [:: [:: 0; 1]; [:: 1]]] in
+  let Ht : list (list (list int)) := [:: [:: [::]; [::]]; [:: [::]; [:: 1]]] in
+  [/\ wf 2 U, wf 2 Ui & wf 2 H]
+  /\ [/\ g_prem_unitary (ROps _) 1 2 U Ui = true, g_prem_similar (ROps _) 1 U Ui H Ht = true
+        & g_prem_unitary (ROps _) 2 2 U Ui = false].
+Proof. by split; split; vm_compute. Qed.
